@@ -251,12 +251,51 @@ func (f *Frame) evalCall1(st *State, call *ast.CallExpr, before *Val, countKey s
 		}
 		return f.callByContract(st, call, fn, ct, recvExpr)
 	}
-	if src := f.c.w.funcs[fn.Origin()]; src != nil && f.inlineable(src) {
+	if src := f.c.w.funcs[fn.Origin()]; src != nil && f.inlineable(src) && !f.boxesReference(call, fn) {
 		if rs, ok := f.tryInline(st, call, fn, src, recvExpr); ok {
 			return rs
 		}
 	}
 	return f.callUnknown(st, call, fn, "")
+}
+
+// boxesReference reports whether the call passes a pointer, slice or map where the callee's parameter is an
+// interface. Inside an inlined body such a value is an opaque handle, so a method call through the interface
+// (protocol.Decode(b, &chunk) -> objptr.UnmarshalMsg(b)) would leave the caller's variable untouched in the
+// model although the real call writes it. Such calls are not inlined: as an unknown call they havoc what the
+// argument points to.
+func (f *Frame) boxesReference(call *ast.CallExpr, fn *types.Func) bool {
+	sig, ok := fn.Type().(*types.Signature)
+	if !ok {
+		return false
+	}
+	np := sig.Params().Len()
+	for i, a := range call.Args {
+		var pt types.Type
+		switch {
+		case i < np-1 || (i < np && !sig.Variadic()):
+			pt = sig.Params().At(i).Type()
+		case np > 0 && sig.Variadic():
+			if sl, ok := sig.Params().At(np - 1).Type().(*types.Slice); ok {
+				pt = sl.Elem()
+			}
+		}
+		if pt == nil {
+			continue
+		}
+		if _, isIfc := f.typ(pt).Underlying().(*types.Interface); !isIfc {
+			continue
+		}
+		at := f.typeOf(a)
+		if at == nil {
+			continue
+		}
+		switch at.Underlying().(type) {
+		case *types.Pointer, *types.Slice, *types.Map:
+			return true
+		}
+	}
+	return false
 }
 
 // assertAtCall proves a contract's `assert at call:<callee> [label] expr` at this call site. The
